@@ -1373,6 +1373,10 @@ func compileFunctionExpr(context *funcContext, funcexpr *ast.FunctionExpr, ec *e
 	context.Proto.Code = context.Code.List()
 	context.Proto.DbgSourcePositions = context.Code.PosList()
 	context.Proto.DbgUpvalues = context.Upvalues.Names()
+	if len(context.Proto.DbgUpvalues) > 255 {
+		// NumUpvalues is 8 bits wide: more would wrap around and index out of the closure's upvalue list
+		raiseCompileError(context, context.Proto.LineDefined, "function has more than 255 upvalues")
+	}
 	context.Proto.NumUpvalues = uint8(len(context.Proto.DbgUpvalues))
 	for _, clv := range context.Proto.Constants {
 		sv := ""
